@@ -257,3 +257,35 @@ Definition pass2_step (s : lstate) (i : nat) : lstate :=
 Definition pass2 (s : lstate) : lstate := fold_left pass2_step (seq 0 (List.length (l_frags s))) s.
 
 Definition link (fs : list frag) : lstate := pass2 (pass1 (mkL fs [] [] [] false)).
+
+(* ---- the no-panic condition ----------------------------------------------------------------- *)
+(* From index i a decoration fragment is reached, forwards or backwards, before a token fragment
+   or an end of the list (attachments play no role). *)
+Definition kind_step (fr : option frag) : sres :=
+  match fr with
+  | None => RStop
+  | Some (FDec _ _ _ _ _) => RFound
+  | Some FTok => RStop
+  | Some _ => RCont false
+  end.
+
+Fixpoint dec_fwd (fs : list frag) (i : nat) (fuel : nat) : bool :=
+  match fuel with
+  | O => false
+  | S f => match kind_step (nth_error fs i) with RFound => true | RStop => false | RCont _ => dec_fwd fs (S i) f end
+  end.
+
+Fixpoint dec_bwd (fs : list frag) (i : nat) : bool :=
+  match kind_step (nth_error fs i) with
+  | RFound => true
+  | RStop => false
+  | RCont _ => match i with O => false | S i' => dec_bwd fs i' end
+  end.
+
+Definition seg_has_dec (fs : list frag) (i : nat) : bool := dec_fwd fs i (S (List.length fs)) || dec_bwd fs i.
+
+Definition seg_ok (fs : list frag) : bool :=
+  forallb (fun i => match nth_error fs i with
+                    | Some (FCom _ _ _) | Some (FNl _ _) => seg_has_dec fs i
+                    | _ => true
+                    end) (seq 0 (List.length fs)).
